@@ -462,6 +462,8 @@ Plan genStatus(const std::string& prop, int tier, uint64_t batchSeed, uint64_t i
             const bool isIf = !ifs.empty() && r.chance(2, 3);
             op.set("dev", devs[di]).set("stream", static_cast<int64_t>(r.below(3))).set("id", g.msgId()).set("ts", static_cast<int64_t>(g.pickTs()));
             op.set("ifid", static_cast<int64_t>(r.below(1000))).set("flags", g.pickFlags()).set("build", r.chance(2, 3) ? 2 : 0);
+            if (r.chance(1, 2))
+                op.set("seq", r.chance(1, 2) ? static_cast<int64_t>(r.below(65536)) : r.pick<int64_t>({1, 255, 256, 0x0300, 0x7FFF, 0x8000, 0xFFFF}));  // an API-built packet has whatever counter its maker gave it
             if (isIf)
                 op.set("kind", wire::K_IFSTAT).set("len", static_cast<int64_t>(minLenOf(wire::K_IFSTAT)) + r.range(0, 30)).set("pifid", ifs[r.below(ifs.size())]);
             else if (r.chance(3, 4))
@@ -470,6 +472,34 @@ Plan genStatus(const std::string& prop, int tier, uint64_t batchSeed, uint64_t i
                 op.set("kind", 0).set("mtype", r.pick<int64_t>({3, 2, 0xFF, 1})).set("ptype", r.pick<int64_t>({3, 4, 1, 2})).set("len", r.range(1, 60));
             if (r.chance(1, 3))
                 op.set("p1o", r.chance(1, 2) ? 25 : static_cast<int64_t>(r.below(40))).set("p1v", static_cast<int64_t>(r.below(256)));  // 4+25 = the interface status byte
+            if (r.chance(1, 3))
+            {
+                // ... followed by the same packet again with exactly ONE header field changed (or none): "equal to what I hold" shortcuts
+                Item twin = g.plan.items.back();
+                twin.set("t", twin.get("t") + 1);
+                switch (r.below(6))
+                {
+                    case 0:
+                        twin.set("stream", (twin.get("stream", 0) + (r.chance(1, 2) ? 1 : 255)) & 0xFF);
+                        break;
+                    case 1:
+                        twin.set("seq", (twin.get("seq", 0) + r.pick<int64_t>({1, 255, 256, 0xFF00})) & 0xFFFF);
+                        break;
+                    case 2:
+                        twin.set("ts", twin.get("ts") + 1);
+                        break;
+                    case 3:
+                        twin.set("ifid", twin.get("ifid") ^ (1LL << r.below(16)));
+                        break;
+                    case 4:
+                        twin.set("flags", twin.get("flags") ^ 0x01);
+                        break;
+                    default:
+                        break;
+                }
+                g.clock += 1;
+                g.plan.items.push_back(twin);
+            }
         }
         else if (sel < 70)
         {
